@@ -395,7 +395,7 @@ func c01FlamePhase(r *core.Run, cat []catRoute, paths []string) {
 		}
 	}
 	if p, err := route.NewParser(); err == nil {
-		tri, _ := mkCatalogue(p, []string{"/a/b", "/a/?b", "/a/{p2}", "/{p1}/b", "/a", "/{m1: **}", "/a/?{o2}", "/a/{r2: /b+/}"})
+		tri, _ := mkCatalogue(p, []string{"/a/b", "/a/?b", "/a/c", "/a/{p2}", "/{p1}/b", "/a", "/{m1: **}", "/a/?{o2}", "/a/{r2: /b+/}"})
 		r.Bounds["flame_triples"] = fmt.Sprintf("ordered triples of %d routes (a route may recur for another method) x {GET,POST}^3", len(tri))
 		for a := range tri {
 			for b := range tri {
